@@ -8,6 +8,7 @@ import (
 	"encoding/json"
 	"fmt"
 	"os"
+	"runtime"
 	"sort"
 	"strconv"
 	"strings"
@@ -49,24 +50,29 @@ type CtlOp struct {
 
 // Spec is one scenario.
 type Spec struct {
-	Seed       int64          `json:"seed"`
-	Paced      bool           `json:"paced"`      // EnableScheduling: writer paced externally
-	TriggerUs  int            `json:"trigger_us"` // period of TriggerWriter calls when paced (0: never, only forced emptying and shutdown)
-	Glob       int            `json:"glob"`
-	Pkgs       map[string]int `json:"pkgs,omitempty"` // nil: package levels inactive
-	Prods      [][]Op         `json:"prods"`
-	Ctl        []CtlOp        `json:"ctl,omitempty"`
-	AdapterUs  int            `json:"adapter_us"` // the adapter sleeps this long on every AdapterEvery-th write
-	AdapterEv  int            `json:"adapter_every"`
-	YieldPm    int            `json:"yield_pm"` // per mille of hook events that sleep
-	YieldUs    int            `json:"yield_us"`
-	YieldAt    []string       `json:"yield_at,omitempty"` // hook points that always sleep YieldUs
-	Shutdown   string         `json:"shutdown"`           // end | mid
-	MidAfterUs int            `json:"mid_after_us"`
-	Quiesce    bool           `json:"quiesce"` // before Shutdown, wait until everything enqueued was written
-	QuiesceMs  int            `json:"quiesce_ms,omitempty"`
-	Cap        int            `json:"cap,omitempty"`  // 0: the logger's own buffer capacity (1024); else a small one (verif helper)
-	Glue       []string       `json:"glue,omitempty"` // start-twice | shutdown-twice | nil-adapter | late-adapter | pre-start | nil-tracer | concurrent-shutdown
+	Seed        int64          `json:"seed"`
+	Paced       bool           `json:"paced"`      // EnableScheduling: writer paced externally
+	TriggerUs   int            `json:"trigger_us"` // period of TriggerWriter calls when paced (0: never, only forced emptying and shutdown)
+	Glob        int            `json:"glob"`
+	Pkgs        map[string]int `json:"pkgs,omitempty"` // nil: package levels inactive
+	Prods       [][]Op         `json:"prods"`
+	Ctl         []CtlOp        `json:"ctl,omitempty"`
+	AdapterUs   int            `json:"adapter_us"` // the adapter sleeps this long on every AdapterEvery-th write
+	AdapterEv   int            `json:"adapter_every"`
+	YieldPm     int            `json:"yield_pm"` // per mille of hook events that sleep
+	YieldUs     int            `json:"yield_us"`
+	YieldAt     []string       `json:"yield_at,omitempty"` // hook points that always sleep YieldUs
+	Shutdown    string         `json:"shutdown"`           // end | mid
+	MidAfterUs  int            `json:"mid_after_us"`
+	Quiesce     bool           `json:"quiesce"` // before Shutdown, wait until everything enqueued was written
+	QuiesceMs   int            `json:"quiesce_ms,omitempty"`
+	Hogs        int            `json:"hogs,omitempty"`         // busy goroutines competing for the CPU (with GOMAXPROCS from Procs)
+	Procs       int            `json:"procs,omitempty"`        // GOMAXPROCS of the child (0: default)
+	AdapterSpin int            `json:"adapter_spin,omitempty"` // busy iterations per adapter write (CPU work, no sleep)
+	MaxPaths    int            `json:"max_paths,omitempty"`    // record at most this many call paths per goroutine (0: all)
+	Light       bool           `json:"light,omitempty"`        // cheap observation: no writer trace, adapter records only (goroutine, item, duplicates); plain calls only
+	Cap         int            `json:"cap,omitempty"`          // 0: the logger's own buffer capacity (1024); else a small one (verif helper)
+	Glue        []string       `json:"glue,omitempty"`         // start-twice | shutdown-twice | nil-adapter | late-adapter | pre-start | nil-tracer | concurrent-shutdown
 }
 
 var orgNames = []string{"orga", "orgb", "orgc"}
@@ -112,6 +118,25 @@ var payloads = []string{"", "", " x", " two words", " 100%d %s %v", " √ºn√Øc√∂d√
 
 func msgText(gid, item int) string {
 	return "g" + strconv.Itoa(gid) + " i" + strconv.Itoa(item) + payloads[(gid*31+item*7)%len(payloads)]
+}
+
+// parseMsgPrefix reads "g<gid> i<item>" without checking the payload (light mode).
+func parseMsgPrefix(s string) (gid, item int, ok bool) {
+	if len(s) < 4 || s[0] != 'g' {
+		return 0, 0, false
+	}
+	i := 1
+	for ; i < len(s) && s[i] >= '0' && s[i] <= '9'; i++ {
+		gid = gid*10 + int(s[i]-'0')
+	}
+	if i == 1 || i+2 >= len(s) || s[i] != ' ' || s[i+1] != 'i' {
+		return 0, 0, false
+	}
+	j := i + 2
+	for ; j < len(s) && s[j] >= '0' && s[j] <= '9'; j++ {
+		item = item*10 + int(s[j]-'0')
+	}
+	return gid, item, j > i+2
 }
 
 func atoiSafe(s string) int { n, _ := strconv.Atoi(s); return n }
@@ -201,16 +226,18 @@ type child struct {
 	info    map[any]string // line pointer ‚Üí "id:msgkey:lvl:site:tr" (id = gid.seq)
 	prods   []*prodState
 
-	nLines   atomic.Int64 // lines that passed the filter (p:line events)
-	nWritten atomic.Int64 // lines handed to the adapter, duplicates expanded
-	nWrites  int
-	foreign  int
+	lightOuts []uint64     // light mode: gid<<40 | key<<8 | dups (dups < 256), written by the writer goroutine only
+	nLines    atomic.Int64 // lines that passed the filter (p:line events)
+	nWritten  atomic.Int64 // lines handed to the adapter, duplicates expanded
+	nWrites   int
+	foreign   int
 
-	epoch   atomic.Int64
-	cfgs    []cfgSnap
-	shutReq atomic.Int32
-	shutRet atomic.Int32
-	afterSh int // adapter writes after Shutdown returned
+	epoch        atomic.Int64
+	cfgs         []cfgSnap
+	shutReq      atomic.Int32
+	shutRet      atomic.Int32
+	afterSh      int // adapter writes after Shutdown returned
+	afterShLight atomic.Int64
 
 	rng atomic.Uint64
 }
@@ -250,6 +277,9 @@ func (c *child) sink(point string, args ...any) {
 	if strings.HasPrefix(point, "yield:") {
 		return
 	}
+	if c.spec.Light && point[0] == 'w' {
+		return // the observation must not slow the writer down in contention scenarios
+	}
 	c.mu.Lock()
 	switch {
 	case strings.HasPrefix(point, "p:"):
@@ -276,9 +306,11 @@ func (c *child) sink(point string, args ...any) {
 		} else {
 			ps.cur = append(ps.cur, ev)
 			if ev == "ret" {
-				ps.mu.Lock()
-				ps.paths = append(ps.paths, strings.Join(ps.cur, " "))
-				ps.mu.Unlock()
+				if c.spec.MaxPaths == 0 || len(ps.paths) < c.spec.MaxPaths {
+					ps.mu.Lock()
+					ps.paths = append(ps.paths, strings.Join(ps.cur, " "))
+					ps.mu.Unlock()
+				}
 				ps.cur = nil
 			}
 		}
@@ -313,6 +345,25 @@ func (c *child) yield(point string) {
 
 // Write is the adapter installed with log.SetAdapter: the observation point of the property.
 func (c *child) Write(m log.Message, dups uint64) {
+	if c.spec.Light {
+		gid, item, ok := parseMsgPrefix(m.Text())
+		if !ok || dups > 255 {
+			gid, item = 1<<20, 0 // reported as a line nobody logged
+		}
+		c.lightOuts = append(c.lightOuts, uint64(gid)<<40|uint64(itemKey(item, int(m.Severity()), 0, false))<<8|dups&255)
+		c.nWritten.Add(int64(dups) + 1)
+		if c.shutRet.Load() == 1 {
+			c.afterShLight.Add(1)
+		}
+		if k := c.spec.AdapterSpin; k > 0 {
+			x := dups
+			for i := 0; i < k; i++ {
+				x = x*6364136223846793005 + 1442695040888963407
+			}
+			spinSink.Store(x)
+		}
+		return
+	}
 	c.mu.Lock()
 	gid, item, tok := c.content(m)
 	if gid < 0 {
@@ -342,6 +393,13 @@ func (c *child) Write(m log.Message, dups uint64) {
 	n := c.nWrites
 	c.mu.Unlock()
 	c.nWritten.Add(int64(dups) + 1)
+	if k := c.spec.AdapterSpin; k > 0 {
+		x := uint64(n)
+		for i := 0; i < k; i++ {
+			x = x*6364136223846793005 + 1442695040888963407
+		}
+		spinSink.Store(x)
+	}
 	if c.spec.AdapterUs > 0 && c.spec.AdapterEv > 0 && n%c.spec.AdapterEv == 0 {
 		time.Sleep(time.Duration(c.spec.AdapterUs) * time.Microsecond)
 	}
@@ -355,6 +413,8 @@ func (c *child) applyCfg(f func(), next cfgSnap) {
 	c.mu.Unlock()
 	c.epoch.Add(1)
 }
+
+var spinSink atomic.Uint64
 
 func toSev(m map[string]int) map[string]log.Severity {
 	o := make(map[string]log.Severity, len(m))
@@ -500,6 +560,25 @@ func childMain() {
 	}
 
 	stop := make(chan struct{})
+	if spec.Procs > 0 {
+		runtime.GOMAXPROCS(spec.Procs)
+	}
+	for i := 0; i < spec.Hogs; i++ {
+		go func() {
+			x := uint64(i)
+			for {
+				select {
+				case <-stop:
+					return
+				default:
+				}
+				for k := 0; k < 100000; k++ {
+					x = x*6364136223846793005 + 1442695040888963407
+				}
+				spinSink.Store(x)
+			}
+		}()
+	}
 	var aux sync.WaitGroup
 	if spec.Paced && spec.TriggerUs > 0 {
 		aux.Add(1)
@@ -725,6 +804,25 @@ func childMain() {
 	}
 	for i := 0; i < len(c.wtoks); i += 120 {
 		fmt.Fprintln(w, "w "+strings.Join(c.wtoks[i:min(i+120, len(c.wtoks))], " "))
+	}
+	if spec.Light {
+		// consecutive identical writes are printed once with a repetition count: "gid:key:dups*count"
+		for i := 0; i < len(c.lightOuts); {
+			j := i
+			for j < len(c.lightOuts) && c.lightOuts[j] == c.lightOuts[i] {
+				j++
+			}
+			v := c.lightOuts[i]
+			t := fmt.Sprintf("%d:%d:%d", v>>40, (v>>8)&0xffffffff, v&255)
+			if j-i > 1 {
+				t += "*" + strconv.Itoa(j-i)
+			}
+			c.outs = append(c.outs, t)
+			i = j
+		}
+		c.nWrites = len(c.lightOuts)
+		c.afterSh = int(c.afterShLight.Load())
+		writesAtRet = c.nWrites
 	}
 	for i := 0; i < len(c.outs); i += 200 {
 		fmt.Fprintln(w, "out "+strings.Join(c.outs[i:min(i+200, len(c.outs))], " "))
